@@ -9,7 +9,8 @@ CFG = {
              "1000, +-2^31, +-2^31+-1, eps, 3e9, 1e300, 2^53, -0.0) put into kerning, ascender, a blue-values pair and unitsPerEm; Font::save_with_options then Font::load; "
              "compared: which files exist, metainfo, integer-vs-real of every number written to fontinfo.plist and kerning.plist, layercontents, colour strings, feature bytes, "
              "the loaded font field by field (glyphs per NAME -> content incl. the order of the code points). Every save goes to a target in one of six prior states (absent, empty, complete bigger UFO, the same with junk, "
-             "partial UFO remains without metainfo, junk directory); name pools hold groups that sanitise to one file name with non-ASCII capitals; part 3: foreign trees with non-default glif names are loaded, edited through insert_glyph, saved and loaded (C04 edit lines). non-trivial = at least one optional part present; distinct by input tokens"),
+             "partial UFO remains without metainfo, junk directory); name pools hold groups that sanitise to one file name with non-ASCII capitals; part 3: foreign trees with non-default glif names are loaded, edited through insert_glyph, saved and loaded (C04 edit lines). Every second random font is built through a HISTORY of container calls (token h=): glyph inserts in a random order, detours (temporary names + rename_glyph / rename_layer, overwriting insert and rename, remove and re-insert, a scratch layer removed again) interleaved with REFUSED calls of every kind (rename_glyph / rename_layer / new_layer with an invalid new name - empty, C0, DEL, C1 -, duplicate without overwrite, missing, reserved, onto the default layer; removals that find nothing; data / image inserts refused for empty, absolute, nested, dir-under-file, non-PNG); the containers must accept / refuse as documented and REPORT (len(), names of iter()) the described state, and the loaded font is compared with that reported state. "
+             "Clash groups of glyph and layer names by case class: non-ASCII capitals, the Unicode TITLECASE letters (U+01C5, U+01C8, U+01CB, U+01F2, U+1F88: not uppercase, yet changed by to_lowercase) without any capital, titlecase against its lowercase form, lowercase only, uppercase only, mixed; one font in five draws its layer names from one group, in both creation orders. non-trivial = at least one optional part present; distinct by input tokens"),
     "exhaustive": {"quick": False, "thorough": False},
     "exhaustive_note": "part 1 enumerates the whole boundary pool of doubles for the three number writers; the font space itself is sampled",
     "timeout": {"quick": 600, "thorough": 7200},
